@@ -1,7 +1,8 @@
 """C01 (and the parts C05/C13/C15 reuse): the standard sampler's live set."""
 from pyvc.contracts import contract
 from .shapes import LP_ROW, LP_ARR, NS, EV
-from .c02_evidence import ev_inv
+from .c02_evidence import ev_inv, ZTRAP
+ONL0 = "old(len(self.state.nlive))"
 
 # ---------------------------------------------------------------- LiveInv
 # The class invariant of the standard sampler between iterations.
@@ -32,6 +33,11 @@ LIVE_INV = [
     "self.nested_samples[i]['it'] <= i and "
     "self.state.logLs[self.nested_samples[i]['it']] < "
     "self.nested_samples[i]['logL'])",
+    # every discarded point so far was integrated with the full live count
+    # (C05: the schedule compute_weights assumes)
+    "self.state.base_nlive == self.nlive",
+    "len(self.state.nlive) == len(self.nested_samples)",
+    "forall(p, 0, len(self.state.nlive), self.state.nlive[p] == self.nlive)",
     # one insertion index per iteration; no point is both recorded and
     # live, no duplicated live point (C13's resumable-state clauses; new
     # points are distinguished by their iteration stamp)
@@ -278,5 +284,15 @@ contract(
         "sorted_by(self.nested_samples, 'logL')",
         "self.finalised",
         "self.live_points is None",
+        "self.iteration == old(self.iteration)",
+        # C05: the reported evidence is the trapezoid quadrature of the
+        # recorded likelihoods / volumes, the first `iteration` entries
+        # integrated with nlive live points
+        "E(self.state.logZ) == " + ZTRAP.replace("self.", "self.state."),
+        f"forall(p, 0, {ONL0}, self.state.nlive[p] == self.nlive)",
+        "forall(i, 0, len(self.nested_samples), self.state.logLs[i + 1] == "
+        "self.nested_samples[i]['logL'])",
+        "len(self.state.log_vols) == len(self.state.logLs) and "
+        "len(self.state.nlive) == len(self.nested_samples)",
     ],
 )
